@@ -1502,12 +1502,8 @@ def _resolve_static_positions_iterative(
                 if real_position is None:
                     continue
 
-                # Current bounds
+                # Current bounds (fully resolved bounds are still validated against the position below)
                 b0, b1 = slice_dict[obj_name][axis]
-
-                # Already fully resolved
-                if b0 is not None and b1 is not None:
-                    continue
 
                 # Need object size to compute centered bounds
                 size = shape_dict[obj_name][axis]
